@@ -600,9 +600,9 @@ MODELLED_NOT_PROVED = [
     "acceptance of the whole serialisation by Dissect.walk for arbitrary stacks (length_fields_outside_known_findings is a "
     "stated def): proved are the per-layer field theorems, their validity at any depth (layer_in_situ) and the IPv4 bundle "
     "(length_fields_partial)",
-    "802.1Q / PPPoE / MPLS / SNAP / SLL / loopback / AH / IPv6-extension-chain tag and length assignments, RFC 4884 layout "
-    "with extensions, ICMP / ICMPv6 / TCP-over-IPv6 checksums inside serialised stacks: model + correspondence + oracle only "
-    "(the checksum tails themselves are proved for all buffers)",
+    "PPPoE / MPLS / SNAP / SLL / loopback / AH tag and length assignments, the IPv6 extension chain, the RFC 4884 layout with "
+    "extensions, ICMPv6 checksum inside serialised stacks: model + correspondence + oracle only (the checksum tails themselves "
+    "are proved for all buffers)",
     "RadioTap header (it_len, FCS placement), EAPOL, LLC: harness + oracle only, no model",
 ]
 # layer kinds of Serialize.lean (the Lean model answers `unmodelled` for option lists whose size/write libtins computes
